@@ -234,7 +234,10 @@ def qall_segments(api, q, fsq):
             segs.append('loadSerial(%s,%s)=%s' % (hx(o), hx(s), r if isinstance(r, str) else fmt_bytes(r)))
     for o in q['oids']:
         for b in q['bounds']:
-            segs.append('loadBefore(%s,%s)=%s' % (hx(o), hx(b), f_before(api.loadBefore(o, b))))
+            r = api.loadBefore(o, b)
+            if r is None and getattr(api, 'fold_absent', False):
+                r = 'err:KeyError'
+            segs.append('loadBefore(%s,%s)=%s' % (hx(o), hx(b), f_before(r)))
     for o in q['oids']:
         for n in q['hsizes']:
             segs.append('history(%s,%d)=%s' % (hx(o), n, f_entries(api.history(o, n))))
@@ -338,6 +341,7 @@ class RealBase:
 
     wrapped = False
     db = None
+    want_db = False
 
     def __init__(self):
         self.ext_table = {ext_key({}): b''}
@@ -352,6 +356,7 @@ class RealBase:
         import ZODB
         old = time.time
         time.time = lambda: now
+        self.want_db = True
         try:
             self.db = ZODB.DB(self.st)
         finally:
@@ -593,8 +598,7 @@ class RealFS(RealBase):
             if mode == 'stale' and os.path.exists(idx):
                 with open(idx, 'rb') as fh:
                     stale = fh.read()
-            had_db = self.db is not None
-            if had_db:
+            if self.db is not None:
                 self.db.close()
                 self.db = None
             else:
@@ -610,7 +614,7 @@ class RealFS(RealBase):
             else:
                 self.raw = self.open_fs(self.path, read_only=(mode == 'ro'))
                 self.st = self.wrap(self.raw)
-            if had_db:
+            if self.want_db:
                 self.open_db(0.0)
             return 'ok'
         return guard(f)
@@ -882,8 +886,9 @@ def root_pickle():
         import ZODB
         from ZODB.MappingStorage import MappingStorage
         m = MappingStorage()
-        ZODB.DB(m).close()
+        db = ZODB.DB(m)
         _ROOT['d'] = m.load(p64(0), '')[0]
+        db.close()
     return _ROOT['d']
 
 
@@ -942,6 +947,8 @@ def execute_steps(case, tmp, full_every=False):
         push_n = case.get('push_n', 0) if kind == 'demo' else 0
         if kind in DEMO_KINDS and base_n == 0:
             real.wrap_demo()
+            if kind == 'demofs':
+                real.fold_absent = api.fold_absent = True
         if case.get('viadb') and kind in ('fs', 'map'):
             # the storage is also reached through a DB: its first open commits the root object
             now0 = case.get('dbnow', 1_500_000_000.0)
@@ -979,6 +986,10 @@ def execute_steps(case, tmp, full_every=False):
                 if kind in FILE_KINDS and not in_base else None)
             if kind in DEMO_KINDS and ti + 1 == base_n:
                 real.wrap_demo()
+            if kind == 'demofs' and real.wrapped:
+                # over a FileStorage base that may hold deletions DemoStorage answers None where the
+                # history says "deleted" (POSKeyError); readers treat both alike: not distinguished
+                real.fold_absent = api.fold_absent = True
             if push_n and ti + 1 == push_n and begun is None:
                 real.push()
                 run.count('demo:pushed')
@@ -1163,6 +1174,10 @@ def _run_op(ctx, op, real, h, run, tid, touched):
         serial = cur if smode == 'cur' else cur + 1
         touched.add(oid)
         robs = real.delete(oid, serial)
+        if robs == 'err:Quota' and real.quota is not None:
+            run.add(None, robs, None)
+            run.count('store:quota-exceeded')
+            return 'abort'
         run.add(ctx.line('delete %s %s' % (hx(oid), hx(serial))), robs, h.delete(oid, serial))
         run.count('op:delete')
         return robs
@@ -1212,6 +1227,8 @@ def _run_op(ctx, op, real, h, run, tid, touched):
         if not committed:
             return 'skip'
         target = committed[op[1] % len(committed)]
+        if real.want_db and target == committed[0]:
+            return 'skip'           # the DB's own root object transaction stays
         robs = real.undo(target)
         run.add(ctx.line('undo %s' % hx(target)), robs, None)
         run.count('op:undo')
@@ -1359,17 +1376,24 @@ def gen_ext(rng, big_ok):
     return ['e', 65535]
 
 
-def gen_data(rng):
+def gen_data(rng, thorough=False):
     r = rng.random()
-    n = (rng.choice([1, 2, 3, 8]) if r < 0.5 else rng.choice([20, 24, 25, 30, 100]) if r < 0.93
-         else rng.choice([8191, 8192, 65536, 70000]))
+    # the big ones lie around the 64 KiB copy chunk; they are costly in the interpreted model, so the
+    # quick tier draws fewer of them and leaves the 128 KiB ones to the thorough tier
+    n = (rng.choice([1, 2, 3, 8]) if r < 0.5 else rng.choice([20, 24, 25, 30, 100]) if r < (0.93 if thorough else 0.96)
+         else rng.choice([8191, 8192, 65536, 65537, 70000, 131077] if thorough else
+                         [8191, 8192, 65536, 65537, 70000]))
     return ['d', rng.randrange(6), n]
 
 
-def gen_case(rng, kind, thorough=False):
+def gen_case(rng, realkind, thorough=False):
+    # hexfs / demofs histories are generated like FileStorage ones, hexmap like MappingStorage ones
+    kind = {'hexfs': 'fs', 'demofs': 'fs', 'hexmap': 'map'}.get(realkind, realkind)
     ntx = rng.choice([1, 2, 3, 4, 5, 6, 6, 7, 8, 8, 9, 10, 11, 12])
-    pool = rng.sample([0, 1, 2, 3, 5, 0x10, 0xffff, 0x10000, 0x10001, 2 ** 63, 2 ** 64 - 2,
-                       rng.randrange(2 ** 64 - 2)], rng.choice([2, 3, 4, 5]))
+    viadb = realkind in ('fs', 'map') and rng.random() < 0.12
+    pool = rng.sample([0, 1, 2, 3, 5, 0x10, 0xff, 0xff00, 0xffff, 0x10000, 0x10001, 0x00ff00ff00ff00ff,
+                       2 ** 63, 2 ** 64 - 2, 2 ** 64 - 1, rng.randrange(2 ** 64 - 2)][1 if viadb else 0:],
+                      rng.choice([2, 3, 4, 5]))
     clockmode = rng.choice(['explicit', 'clock', 'clock', 'mixed'])
     now = 1_700_000_000.0 + rng.randrange(10 ** 6)
     big_budget = 1 if rng.random() < 0.25 else 0         # at most one 65535-byte metadata per history
@@ -1414,9 +1438,9 @@ def gen_case(rng, kind, thorough=False):
             oid = rng.choice(pool)
             if kind != 'fs' or r < 0.45 or not txns:
                 smode = 'cur' if rng.random() < 0.93 else rng.choice(['bad', 'zero'])
-                t['ops'].append(['store', oid, smode, gen_data(rng)])
+                t['ops'].append(['store', oid, smode, gen_data(rng, thorough)])
                 if rng.random() < 0.15:                     # duplicate store of one oid in a transaction
-                    t['ops'].append(['store', oid, 'cur', gen_data(rng)])
+                    t['ops'].append(['store', oid, 'cur', gen_data(rng, thorough)])
             elif r < 0.55:
                 t['ops'].append(['delete', rng.choice(known) if known and rng.random() < 0.85 else oid,
                                  'cur' if rng.random() < 0.9 else 'bad'])
@@ -1430,19 +1454,19 @@ def gen_case(rng, kind, thorough=False):
                 if r2 < 0.45:
                     t['ops'].append(['restore', o, 'copy', -rng.choice([1, 1, 2, 3, 4])])
                 elif r2 < 0.7:
-                    t['ops'].append(['restore', o, gen_data(rng), None])
+                    t['ops'].append(['restore', o, gen_data(rng, thorough), None])
                 elif r2 < 0.85:
-                    t['ops'].append(['restore', o, gen_data(rng), -rng.choice([1, 2, 3])])
+                    t['ops'].append(['restore', o, gen_data(rng, thorough), -rng.choice([1, 2, 3])])
                 elif r2 < 0.95:
                     t['ops'].append(['restore', o, None, None])
                 else:
-                    t['ops'].append(['restore', o, gen_data(rng), 'missing'])
+                    t['ops'].append(['restore', o, gen_data(rng, thorough), 'missing'])
             if oid not in known:
                 known.append(oid)
         if rng.random() < 0.07:
             t['end'] = 'abort'
-        if kind == 'fs' and rng.random() < 0.22:
-            t['reopen'] = rng.choice(['keep', 'drop'])
+        if kind == 'fs' and rng.random() < 0.24:
+            t['reopen'] = rng.choice(['keep', 'drop', 'keep', 'drop', 'stale', 'stale', 'ro'])
         txns.append(t)
     # a transaction aborted after its vote, followed by one of exactly the same shape (it lands on the
     # same file offsets)
@@ -1471,12 +1495,31 @@ def gen_case(rng, kind, thorough=False):
             a = txns[i]['tid']
             base = a[1] if a[0] == 'c' else now
             txns[i + 1]['tid'] = ['c', max(base + rng.choice([0.0, 0.0, 0.0, -5.0, 1e-9, 2.0]), 1.0)]
-    case = dict(kind=kind, txns=txns, qseed=rng.randrange(10 ** 6))
+    case = dict(kind=realkind, txns=txns, qseed=rng.randrange(10 ** 6))
+    if realkind in FILE_KINDS:
+        case['ctor'] = rng.choice(['direct', 'direct', 'direct-opts', 'config', 'config-opts'])
+        if case['ctor'].endswith('-opts'):
+            case['quota'] = rng.choice([1500, 4000, 70000]) if rng.random() < 0.2 else 10 ** 12
+    if viadb:
+        case['viadb'] = True
+        for t in txns:                  # DB.* decodes user name and description as UTF-8
+            for k in 'ud':
+                if t[k][1] not in (0x41, 0x20, 0x70):
+                    t[k] = ['m', 0x41, t[k][2]]
+    if realkind == 'demofs':
+        case['base_n'] = min(rng.choice([0, 1, 2, 3, ntx // 2]), ntx - 1) if ntx > 1 else 0
     if thorough and rng.random() < 0.2:
         case['full'] = True          # every oid x every tid boundary after EVERY transaction
     if kind == 'demo':
+        if rng.random() < 0.3 and ntx > 2:
+            case['push_n'] = -1        # set below, above the base
         case['base_n'] = rng.choice([0, 1, 1, 2, 3, ntx // 2])
         case['base_n'] = min(case['base_n'], ntx - 1) if ntx > 1 else 0
+        if 'push_n' in case:
+            if case['base_n'] + 1 < ntx:
+                case['push_n'] = rng.randrange(case['base_n'] + 1, ntx)
+            else:
+                del case['push_n']
         # the base's clock is normally not ahead of the changes' clock (hypothesis TidOrdered, C16);
         # a clock that stalls or steps back across the base/changes boundary is the reproduced
         # defect "DemoStorage tid below base tid" and is generated rarely
@@ -1628,18 +1671,28 @@ def main(argv=None):
     if ck.replay_path:
         with open(ck.replay_path) as f:
             j = json.load(f)
-        cases = [j['case']] if j.get('case') else []
+        c = j.get('case')
+        units = [] if not c else [c['cases']] if c.get('kind') == 'pair' else [[c]]
         nproc = 1
     else:
-        cases = load_corpus()
-        n = 2000 if ck.thorough else 60
-        for kind in ('fs', 'map', 'demo'):
-            for _ in range(n if kind == 'fs' else n // 2):
-                cases.append(gen_case(ck.rng, kind, ck.thorough))
+        units = [c['cases'] if c.get('kind') == 'pair' else [c] for c in load_corpus()]
+        counts = (dict(fs=2000, map=700, demo=700, hexfs=300, hexmap=150, demofs=300) if ck.thorough else
+                  dict(fs=56, map=22, demo=22, hexfs=10, hexmap=6, demofs=10))
+        for kind in KINDS:
+            gen = [gen_case(ck.rng, kind, ck.thorough) for _ in range(counts[kind])]
+            # two storages of one class alive in one process, their steps interleaved
+            i = 0
+            while i < len(gen):
+                if kind != 'demofs' and i + 1 < len(gen) and ck.rng.random() < 0.12:
+                    units.append([gen[i], gen[i + 1]])
+                    i += 2
+                else:
+                    units.append([gen[i]])
+                    i += 1
     # FileStorage cases carry the model comparison: spread them evenly
     chunks = [[] for _ in range(nproc)]
-    for i, c in enumerate(cases):
-        chunks[i % nproc].append(c)
+    for i, u in enumerate(units):
+        chunks[i % nproc].append(u)
     jobs = [(ch, os.path.join(ck.tmp, 'w%d' % i), False) for i, ch in enumerate(chunks) if ch]
     if len(jobs) > 1:
         with multiprocessing.Pool(len(jobs)) as pool:
@@ -1659,8 +1712,12 @@ def main(argv=None):
         for what, case in res['mismatches']:
             ck.mismatch(what, case)
     ck.finish(
-        rule='seeded histories of 1-12 transactions on FileStorage (model + oracle), MappingStorage and '
-             'DemoStorage(base=MappingStorage) (oracle); all queries after every transaction, every oid x '
+        rule='seeded histories of 1-12 transactions on FileStorage and MappingStorage (model + oracle), '
+             'HexStorage around either, DemoStorage over MappingStorages (also pushed) and '
+             'DemoStorage(base=FileStorage, changes=FileStorage) (oracle only); constructed directly or '
+             'through ZODB.config with explicit option values, reopened with the saved / a stale / no '
+             'index and read-only, also reached through DB.history/undoLog/undoInfo, some pairs of '
+             'storages interleaved in one process; all queries after every transaction, every oid x '
              'every tid boundary after the last one and after each reopen; non-trivial = the executed '
              'history has >= 1 record without bytes of its own (back pointer / un-creation) and >= 1 oid '
              'with >= 3 revisions; distinct by hash of the case',
@@ -1677,6 +1734,11 @@ def main(argv=None):
             'ITSELF is an un-creation / deletion marker; when the newest record is a back pointer whose '
             'chain ends in one, load/loadBefore raise POSKeyError but getTid answers that record\'s tid '
             '(reproducer: corpus/C16/repro_gettid_uncreated_via_backpointer.py; kept as is by decision)',
+            'ORACLE ONLY (no Lean model): HexStorage-wrapped storages, DemoStorage in all its layerings; '
+            'the FileStorage quota (a refused store is not sent to the model) and the DB entry points '
+            '(compared with the storage\'s own answer, which is compared with model and oracle)',
+            'DemoStorage over a FileStorage base: loadBefore answering None vs raising POSKeyError for '
+            'an object deleted in the base is not distinguished (MVCC readers treat both as POSKeyError)',
             'concurrency is covered only by one scripted interleaving per overlapped pair (a second '
             'thread enters tpc_begin while the commit lock is held); schedules in general are C02/C03'])
 
